@@ -156,6 +156,55 @@ Section Client.
       unfold rv_sub in *. rewrite <- Hr. auto.
   Qed.
 
+  (** ** C03: a revoked wake-up is never executed
+
+      At the moment an activation executes, its signal is not in the revocation set (the loop skips revoked
+      activations when it pops them) ... *)
+  Theorem revoked_never_executed n : forall st l,
+    inv l -> Forall (fun x => is_revoked (revoked (x_loop x)) (e_act (x_ev x)) = false) (kexec_x n st l).
+  Proof.
+    induction n as [|n IH]; cbn; intros st l Hinv; [constructor|].
+    destruct (next l) as [[a l']|] eqn:E; [|constructor].
+    destruct (next_spec _ _ _ Hinv E) as (H1 & _ & _ & _ & H5 & _).
+    destruct (next_pending _ _ _ Hinv E) as (Hr & _).
+    destruct (client st l' a) as [st' ops] eqn:Ec.
+    destruct (kapply_all_inv ops l' H1) as (J1 & _).
+    constructor; [cbn; rewrite Hr; exact H5 | apply IH; exact J1].
+  Qed.
+
+  Lemma kapply_all_revokes ops s : forall l, In (KRevoke s) ops -> mem_sid s (revoked (kapply_all l ops)) = true.
+  Proof.
+    unfold kapply_all. induction ops as [|o ops IH]; cbn; intros l H; [contradiction|].
+    destruct H as [->|H]; [|apply IH; exact H].
+    destruct (kapply_all_mono ops (kapply l (KRevoke s))) as [M _]. apply M. unfold kapply, mem_sid. cbn.
+    rewrite Nat.eqb_refl. reflexivity.
+  Qed.
+
+  (** ... and revoking is final: once some activation has issued [KRevoke s] (a waiter leaving its wait: the
+      `finally: wake_up.revoke()` of postpone/suspend, `__unsubscribe__` of a scheduled subscription, the end of a
+      task revoking its pending cancellations), NO later activation of the run carries the signal [s], whatever
+      any client does afterwards - even if [s] had been scheduled before, or is scheduled again later. *)
+  Theorem revoke_is_final n : forall st l i j xi xj s,
+    inv l -> i < j ->
+    nth_error (kexec_x n st l) i = Some xi -> nth_error (kexec_x n st l) j = Some xj ->
+    In (KRevoke s) (x_ops xi) -> a_sig (e_act (x_ev xj)) <> Some s.
+  Proof.
+    induction n as [|n IH]; cbn; intros st l i j xi xj s Hinv Hij Hi Hj Hrv; [destruct i; discriminate|].
+    destruct (next l) as [[a l']|] eqn:E; [|destruct i; discriminate].
+    destruct (next_spec _ _ _ Hinv E) as (H1 & _).
+    destruct (client st l' a) as [st' ops] eqn:Ec.
+    destruct (kapply_all_inv ops l' H1) as (J1 & _).
+    destruct j as [|j]; [lia|]. cbn in Hj.
+    destruct i as [|i]; cbn in Hi.
+    - inversion Hi; subst xi. cbn in Hrv.
+      pose proof (kapply_all_revokes ops s l' Hrv) as Hm.
+      pose proof (kexec_x_rv_mono n st' (kapply_all l' ops) j xj J1 Hj) as Hsub.
+      pose proof (revoked_never_executed n st' (kapply_all l' ops) J1) as Hall.
+      rewrite Forall_forall in Hall. specialize (Hall xj (nth_error_In _ _ Hj)).
+      intros Heq. unfold is_revoked in Hall. rewrite Heq in Hall. rewrite (Hsub s Hm) in Hall. discriminate.
+    - apply (IH st' (kapply_all l' ops) i j xi xj s J1); auto. lia.
+  Qed.
+
   (** If [b] is queued and must run before [p] (earlier due time, or same due time and scheduled earlier),
       then at the moment [p] executes, [b] has already executed -- unless [b] is revoked by then. *)
   Theorem earlier_runs_first b p n : forall st l i x,
